@@ -25,6 +25,7 @@ pub fn def() -> CheckDef {
         cpu_limit_s: 240,
         fault_kinds: "as C05 (F-FC enumerated, F-BF, F-TR, F-LW, F-MW, F-CR/F-WT crash images), restricted to images permissive open accepts",
         count_subruns: true,
+        expect_probes: &["damaged_images_accepted_by_open"],
     }
 }
 
